@@ -14,6 +14,8 @@ CLAIMED = {
             "float division in math.ceil exact below 2**53", "7 C06"),
     "C11": ("Lean theorems on the I/O trace component of the model (one seek+read per touched chunk, confined to the chunk and the file; open pass = prefix of ceil(n/rpc) sequential reads); event-sequence correspondence against a tracing file object; instrumented-filesystem oracle",
             "xarray may widen selections before the backend is called; bound checked against the selection's line span", "7 C11"),
+    "C05": ("Lean theorems attitude / data_quality / facility_1_4 / volume_directory / trailer / leader / static_records on the record layouts regenerated from /repo (incl. their this-expressions): a successful parse consumes exactly the declared bytes for every count and length; layout correspondence; all-N oracle with field-by-field comparison after each variable record",
+            "the interpreter's meaning of construct classes is tied by differential testing; read_sar_trailer's own slicing is only tested", "7 C05"),
     "C18": ("Lean theorem truncated_image (for arbitrary bytes: short file => error or fewer than n records) and complete_image; truncation/missing-file oracle over every record boundary +-1 x rpc",
             "xarray.Dataset's dimension check and promptness are not proved (measured)", "7 C18"),
 }
